@@ -56,7 +56,14 @@ def check_discipline(chk) -> None:
         if not errs:
             chk.ok("index-discipline", fi.where, f"{len(seen)} index conversion sites obey the 0-based / 1-based discipline")
         for (ln, txt, msg), n in errs.items():
-            chk.violation("index-discipline", fi.site(n), f"`{txt}`: {msg}", K(fi, f"index:{txt}"))
+            if "no index kind" in msg or "without index kind" in msg:
+                # the typer lost track of a value: nothing is known, nothing is claimed
+                if chk.repo.shape_status(m, q) == "shape":
+                    chk.error("index-discipline", fi.site(n), f"`{txt}`: {msg} (index typing lost in a rewritten function)")
+                else:
+                    chk.violation("index-untyped", fi.site(n), f"`{txt}`: {msg}", K(fi, f"index:{txt}"))
+            else:
+                chk.violation("index-discipline", fi.site(n), f"`{txt}`: {msg}", K(fi, f"index:{txt}"))
     if total < 20:
         chk.error("index-discipline", "-", f"only {total} index conversion sites bound (27 on the pinned tree)")
 
@@ -220,6 +227,7 @@ def run(chk) -> None:
     )
     chk.trusted = ["CPython ast", "seed table of which fields are 1-based (sa/indexkinds.py, confirmed by reading)"]
     chk.assumptions = ["valid BPSEQ", "correctness of the loop-linking walk on knotted multiloops and the exactly-once coverage as a whole are not decided (DESIGN.md C07 residual)"]
+    chk.robust |= {"index-discipline", "stems-run", "stems-filter", "region-triple", "elements-dotbracket"}
     check_discipline(chk)
     check_strand(chk)
     check_elements(chk)
